@@ -8,8 +8,8 @@ CLAIMED = {
     note="A2 python semantics of the tpv interpreter, A3 inspect.getfullargspec/copy.deepcopy models, A8 user functions are functions, A9 solvers",
     tech="contract-based deductive verification: VCs generated from the AST of the real source by a symbolic interpreter, discharged by z3/cvc5"),
  "C16": dict(cat="proof", sec="DESIGN 4/C16",
-    text="Contracts on PointsDataset / DeepONetDataset / DeepONetDataset_Unique with symbolic data-set sizes, batch sizes and batch index: row-provenance postconditions on __getitem__ (pairing, also through shuffles), batch-size bound, __len__ characterisation and coverage lemmas with ghost witnesses, all discharged by z3 (nonlinear integer arithmetic with explicit lemmas). The coverage defect of DeepONetDataset is exhibited on concrete instances (bounded, known finding F17).",
-    note="A2, A3 (torch indexing/cat/randperm, np.lcm/ceil models), A5 DataLoader(batch_size=None) yields ds[0..len-1] once each, A9. DataCondition.forward aggregation is not yet under contract.",
+    text="Contracts on PointsDataset / DeepONetDataset / DeepONetDataset_Unique with symbolic data-set sizes, batch sizes and batch index: row-provenance postconditions on __getitem__ (pairing, also through shuffles), batch-size bound, __len__ characterisation and coverage lemmas with ghost witnesses, all discharged by z3 (nonlinear integer arithmetic with explicit lemmas). DataCondition.forward(use_full_dataset=True) under an inductive loop contract over an arbitrary loader (every batch aggregated exactly once: mean of the per-batch means / maximum, as recursive spec functions); DeepONetDataCondition._compute_dist pairs target (i, j) with branch function i at trunk location j. The coverage defect of DeepONetDataset is exhibited on concrete instances (bounded, known finding F17).",
+    note="A2, A3 (torch indexing/cat/randperm, np.lcm/ceil models), A5 DataLoader(batch_size=None) yields ds[0..len-1] once each, A9.",
     tech="contract-based deductive verification: VCs generated from the AST of the real source by a symbolic interpreter, discharged by z3/cvc5"),
  "C15": dict(cat="proof", sec="DESIGN 4/C15",
     text="Inductive contract of StaticSampler.sample_points (ghost use-counter, arbitrary invariant state, symbolic interval or infinity, wrapped sampler abstract) and retain-set postconditions of both adaptive samplers (symbolic point count, symbolic ratio, the code's own rand_like draw), discharged by z3 for all point counts, intervals and histories (induction over calls).",
